@@ -22,11 +22,13 @@ VARIABLES fam, arr, tol,   \* the case
                            \* workers (as a filter of Init it was two thirds of the run time); the driver
                            \* drops (and counts) the cases outside
           impl,            \* sci: SciImpl(arr, tol)
-          dstar,           \* sci: the number of decimals of the model (0 when the search diverges)
+          dstar,           \* sci: the number of decimals of the model (0 when the search finds none)
+          sit,             \* sci: situations of the model's float branch the case is in (Situations; the driver
+                           \* requires each of them to be enumerated)
           kb,              \* recorded-defect predicates that hold
           ok               \* sci: every array the model may return is inside the tolerance;
                            \* int: all 12 candidate chains return Smallest(arr) exactly
-vars == <<fam, arr, tol, done, dom, impl, dstar, kb, ok>>
+vars == <<fam, arr, tol, done, dom, impl, dstar, sit, kb, ok>>
 
 \* the last element repeated r more times
 Stretch(v, r) == v \o [i \in 1..r |-> v[Len(v)]]
@@ -59,26 +61,35 @@ Stretches(t) == IF t = 33 /\ ~Rich THEN {0} ELSE {0, 12}
 EdgeVals == {0, 1, -1, 127, 128, 255, 256, 32767, 32768, 65535, 65536, -128, -129, -32768, -32769}
 
 Y(x, fx) == [k |-> x.k, fx |-> fx, ex |-> TRUE]
+\* situations of the float branch (properties of the case in the model, whatever the code does with it):
+\* no number of decimals reaches the tolerance inside the float range; the decimals found need a factor
+\* 10^d >= 2^64; a float32 value whose scaled magnitude float32 arithmetic cannot tell from 2^31
+Situations(A, T) ==
+  IF SciTrivial(A) THEN {}
+  ELSE IF SciExhausted(A, T) THEN {"DecimalsUnreachable"}
+  ELSE (IF SciDecimals(A, T) >= 20 THEN {"FactorBeyondUint64"} ELSE {})
+       \cup (IF \E i \in DOMAIN A.v : SciZone(A.t, A.v[i], SciDecimals(A, T)) THEN {"Float32Boundary"} ELSE {})
 InitSci(t, v, r, T) == fam = "sci" /\ arr = Arr(t, Stretch(v, r)) /\ tol = T
 Init == /\ \/ \E t \in FloatTypes, k \in 1..SciLen : \E v \in [1..k -> Vals(t)], r \in Stretches(t), T \in Tols(t) :
                  InitSci(t, v, r, T)
            \/ \E t \in FloatTypes : \E v \in DeepArrays(t), r \in Stretches(t), T \in Tols(t) : InitSci(t, v, r, T)
            \/ \E k \in 1..2 : \E v \in [1..k -> EdgeVals], r \in {0, 12} :
                  fam = "int" /\ arr = Arr(3, Stretch(v, r)) /\ tol = 1000
-        /\ done = FALSE /\ dom = TRUE /\ impl = [oc |-> "todo", ys |-> {}, fits |-> FALSE] /\ dstar = 0 /\ kb = {} /\ ok = TRUE
+        /\ done = FALSE /\ dom = TRUE /\ impl = [oc |-> "todo", ys |-> {}, fits |-> FALSE] /\ dstar = 0 /\ sit = {} /\ kb = {} /\ ok = TRUE
 Compute ==
   /\ ~done /\ done' = TRUE
   /\ dom' = (fam = "sci" => Dom_Sci(arr, tol))
   /\ IF fam = "sci" /\ ~dom'
-     THEN impl' = [oc |-> "outside", ys |-> {}, fits |-> FALSE] /\ dstar' = 0 /\ kb' = {} /\ ok' = TRUE
+     THEN impl' = [oc |-> "outside", ys |-> {}, fits |-> FALSE] /\ dstar' = 0 /\ sit' = {} /\ kb' = {} /\ ok' = TRUE
      ELSE IF fam = "sci"
      THEN /\ impl' = SciImpl(arr, tol)
-          /\ dstar' = IF SciHang(arr, tol) THEN 0 ELSE SciDecimals(arr, tol)
+          /\ dstar' = IF SciExhausted(arr, tol) THEN 0 ELSE SciDecimals(arr, tol)
+          /\ sit' = Situations(arr, tol)
           /\ kb' = (IF KB_SciUnbounded(arr, tol) THEN {"CompressDecimalsUnbounded"} ELSE {})
                    \cup (IF KB_SciFactor(arr, tol) THEN {"CompressFactorUnserialisable"} ELSE {})
                    \cup (IF KB_SciFloat32Range(arr, tol) THEN {"CompressFloat32RangeCheck"} ELSE {})
           /\ ok' = \A ys \in impl'.ys : \A i \in DOMAIN arr.v : AcceptSci(arr.t, tol, arr.v[i], Y(arr.v[i], ys[i]))
-     ELSE /\ impl' = [oc |-> "ok", ys |-> {}, fits |-> FALSE] /\ dstar' = 0 /\ kb' = {}
+     ELSE /\ impl' = [oc |-> "ok", ys |-> {}, fits |-> FALSE] /\ dstar' = 0 /\ sit' = {} /\ kb' = {}
           /\ ok' = \A c \in Candidates : LET r == ImplRoundTrip(c, Smallest(arr)) IN r.oc = "ok" /\ r.a.v = arr.v
   /\ UNCHANGED <<fam, arr, tol>>
 Next == Compute
@@ -89,8 +100,10 @@ Spec == Init /\ [][Next]_vars
 \* found by the search whenever every scaled value fits into int32) is inside the relative tolerance;
 \* every candidate chain returns the integers it was given
 InvTolerance == done => ok
-\* the call returns - except in the recorded class, where the search for the decimals never ends
-InvReturns == (done /\ dom /\ fam = "sci") => ((impl.oc = "Diverges") = ("CompressDecimalsUnbounded" \in kb))
+\* the call returns (at least the lossless array), also when no number of decimals reaches the tolerance
+InvReturns == (done /\ dom /\ fam = "sci") =>
+                 /\ impl.oc = "ok" /\ [i \in DOMAIN arr.v |-> arr.v[i].m] \in impl.ys
+                 /\ ("DecimalsUnreachable" \in sit => ~impl.fits)
 
 \* _get_decimal_places, pinned on hand-computed examples (|round(x, d) - x| < |x| / T; the real function
 \* returns the same eight numbers)
@@ -101,9 +114,9 @@ ASSUME SciDecimals(Arr(33, <<Sci(15, -13), Sci(125, -3)>>), 1000) = 13
 ASSUME SciDecimals(Arr(33, <<Sci(3, 9), Sci(-5, -1)>>), 1000) = 1
 ASSUME SciDecimals(Arr(33, <<Sci(15, 29)>>), 10) = -29 /\ SciDecimals(Arr(33, <<Sci(15, 29), Sci(225, 28)>>), 1000) = -28
 ASSUME SciDecimals(Arr(33, <<Num(0, 0), SciNaN>>), 1000) = 0
-ASSUME SciHang(Arr(33, <<Sci(12345, -310), Num(0, 0)>>), 1000) /\ ~SciHang(Arr(33, <<Sci(12345, -310), Num(0, 0)>>), 10)
-ASSUME ~SciHang(Arr(33, <<Sci(12345, -310)>>), 1000)
-ASSUME SciHang(Arr(32, <<Sci(15, 29), Sci(15, -13)>>), 10) /\ ~SciHang(Arr(33, <<Sci(15, 29), Sci(15, -13)>>), 10)
+ASSUME SciExhausted(Arr(33, <<Sci(12345, -310), Num(0, 0)>>), 1000) /\ ~SciExhausted(Arr(33, <<Sci(12345, -310), Num(0, 0)>>), 10)
+ASSUME ~SciExhausted(Arr(33, <<Sci(12345, -310)>>), 1000)
+ASSUME SciExhausted(Arr(32, <<Sci(15, 29), Sci(15, -13)>>), 10) /\ ~SciExhausted(Arr(33, <<Sci(15, 29), Sci(15, -13)>>), 10)
 ASSUME SciOverflow(Num(214748365, -1), 2) /\ ~SciOverflow(Num(214748364, -1), 2) /\ SciOverflow(Sci(-3, 9), 1)
 ASSUME RoundErr(123456789, 4) = 3211 /\ RoundErr(-150000000, 8) = 50000000 /\ RoundErr(5, 0) = 0
 ASSUME Digits(1) = 1 /\ Digits(999999999) = 9 /\ Digits(1000000000) = 10 /\ Sci(-15, -13) = Num(-150000000, -20)
